@@ -417,7 +417,7 @@ def replay(skel, ops, keep_text=False):
     "pruned": it is the same behaviour as the shorter history without that
     step, which is a case of its own (histories are prefix- and subsequence-
     closed).  -> dict(skel, ops, steps=[outcome..], gen="written"|"refused"|
-    "error"|"pruned"|"unresolved"|"unsupported", tree=abstract tree itemised
+    "error"|"pruned"|"unchanged"|"unresolved"|"unsupported", tree=abstract tree itemised
     from the written text | None, ptree=abstract tree from the PSyIR, msg)'''
     root, routine = build(skel)
     steps = []
@@ -438,6 +438,12 @@ def replay(skel, ops, keep_text=False):
                     res["refusal_changed_tree"] = True
                 elif idx < len(ops) - 1:
                     res["gen"] = "pruned"
+                    return res
+                else:
+                    # nothing changed: the tree is the one of the shorter
+                    # history (its own case); a refusal is always allowed
+                    res["gen"] = "unchanged"
+                    res["ptree"] = before
                     return res
         res["ptree"] = project_psyir(routine)
         gen, text = write(root)
